@@ -256,12 +256,12 @@ Print Assumptions C04_literal_translated.
    parseLiteral), TRANSLATED: Gen/Decoder.v is regenerated from the Go source on every run by tools/gotrans/c04w.go as
    terms of the statement / expression syntax of Model/C04_dsyntax.v; Model/C04_dec.v interprets them over the
    translated scanner and the translated literal classifier (decode_text = StringifiedMessage.MarshalNBT).
-   REACHED: the obligations below on the translated program, agreement with the specification parser on EVERY text up
-   to a stated length, instances on printed trees, and the differential run of the extracted interpretation against
+   REACHED: the obligations below on the translated program, the escape processing of quoted strings for strings of every
+   length, agreement with the specification parser and totality on EVERY text up to a stated length, instances on printed trees, and the differential run of the extracted interpretation against
    the implementation.  NOT REACHED: the equality with the specification parser on L for texts of every length
    (meta/C04.json not_proved). *)
 From GoMC Require Model.C04_dsyntax Model.C04_dec Gen.Decoder Proofs.C04_dec Proofs.C04_dec_sweep Proofs.C04_dec_sweep2
-  Proofs.C04_dec_sweep3.
+  Proofs.C04_dec_sweep3 Proofs.C04_dec_quoted.
 
 (* the translated program mentions no package-level variable and calls only translated functions and the primitives
    the interpreter defines: its meaning is a function of the text (and the float oracle) alone *)
@@ -308,6 +308,21 @@ Proof.
   - exact (C04_dec_sweep2.decoder_total_short3 text L F).
 Qed.
 
+(* strings of EVERY length (no bound): the interpretation of the translated quoted clause of parseLiteral - the escape
+   processing loop - turns the text the specification printer writes for a string (quote, escape, quote, for either
+   quote character) back into exactly that string, tag TAG_String, nil error, and leaves the decodeState alone; the
+   fuel is linear in the length of the string *)
+Theorem C04_decoder_quoted_translated : forall (pf : list Z -> Z -> option Z) (q : N) (str : list N)
+    (s : Model.C04_dec.st) (m : nat),
+  (q = 34 \/ q = 39)%N -> Forall (fun c => (c < 256)%N) str -> (length str <= m)%nat ->
+  exists s',
+    Model.C04_dec.call pf Decoder.decoder_prog (S (S (S (S (S (S (S (C04_dec_quoted.F m)))))))) Decoder.dec_parseLiteral
+      [Model.C04_dec.VL (map Z.of_N (q :: escape q str ++ [q]))] s =
+    Model.C04_dec.EV (Model.C04_dec.VTup [Model.C04_dec.VZ nbt_TagString; Model.C04_dec.VL (map Z.of_N str); Model.C04_dec.VNil]) s' /\
+    Model.C04_dec.s_data s' = Model.C04_dec.s_data s /\ Model.C04_dec.s_off s' = Model.C04_dec.s_off s /\
+    Model.C04_dec.s_opcode s' = Model.C04_dec.s_opcode s /\ Model.C04_dec.s_scan s' = Model.C04_dec.s_scan s.
+Proof. exact C04_dec_quoted.decoder_quoted_spec. Qed.
+
 (* instances of the round trip through the TRANSLATED decoder: the writer's text of a tree with every kind of leaf,
    nested containers, hostile strings and keys is decoded to exactly the tree's encoding *)
 Definition toy_zpf (txt : list Z) (_ : Z) : option Z := C04_dec.digits_val 0 txt.
@@ -335,3 +350,4 @@ Print Assumptions C04_decoder_scratch_local.
 Print Assumptions C04_decoder_translated_short.
 Print Assumptions C04_decoder_translated_short_floats.
 Print Assumptions C04_decoder_total_short.
+Print Assumptions C04_decoder_quoted_translated.
